@@ -38,8 +38,7 @@ def okTy : Except TErr Ty → String
   | .error e => toString (Sexp.list [.atom "err", .atom (terrTo e)])
 
 /-- every theorem `logic_base` installs: what `get_theorem` can return -/
-def theoryTheorems : List (String × Thm) :=
-  Holpy.C01.Gen.baseAxioms ++ Holpy.C01.Gen.provedTheorems
+def theoryTheorems : List (String × Thm) := Holpy.C01.Gen.theoryTheorems
 
 def argAxOf : Sexp → Option ArgAx
   | .list [.atom "name", .atom n] => some (.name n)
